@@ -482,7 +482,15 @@ class Check(object):
 def replay_file(pid, path):
     ref = json.load(open(path))
     print("obligation:", ref["obligation"])
-    print("clause    :", ref["clause"])
+    if "witness" in ref:
+        # a bounded stand-in's concrete witness: re-run its command against the current tree (exit 1 = the failing input reproduces)
+        print("witness   :", json.dumps(ref["witness"], indent=1)[:4000])
+        print("command   :", ref.get("replay_cmd"))
+        p = subprocess.run(ref["replay_cmd"], shell=True, cwd=os.environ.get("VERIF_REPO", "/repo"), stdout=subprocess.PIPE, stderr=subprocess.STDOUT,
+                           universal_newlines=True, timeout=6000)
+        print("native    :", p.stdout[-3000:])
+        return 1 if p.returncode == 1 else 0
+    print("clause    :", ref.get("clause"))
     print("solver    :", ref.get("solver"), ref.get("full_scope"))
     print("model     :", json.dumps(ref.get("model", {}), indent=1)[:4000])
     chk = Check(pid)
